@@ -1151,6 +1151,10 @@ fn run_one(c: &Case, exp: &Expect, cfg: &SimConfig, decider: Decider) -> (Observ
     (obs, v)
 }
 
+fn run_crash(c: &Case, cfg: &SimConfig, decider: Decider) -> Observed {
+    crate::shellrun::run_script_with(&spec_of(c), cfg, decider, |_| {}, crate::shellrun::crash_env(cfg))
+}
+
 impl Prop for C13 {
     fn id(&self) -> &'static str {
         "C13"
@@ -1247,12 +1251,45 @@ impl Prop for C13 {
                 }
             }
         }
+        if first_failure.is_none() {
+            // crash injection: children are killed (SIGKILL from outside) at
+            // seeded instants. Output is no longer predictable; the shell must
+            // still terminate, report true statuses and never act after death.
+            let runs = match tier {
+                Tier::Quick => 2,
+                Tier::Thorough => 4,
+            };
+            for j in 0..runs {
+                let mut cfg = draw_config(&mut rng, 1 + j);
+                cfg.crash_permille = *rng.pick(&[20u32, 60, 150]);
+                cfg.crash_max = rng.range(1, 3);
+                let obs = run_crash(&case, &cfg, Decider::record(Rng::stream(seed, 1395 + j as u64, index)));
+                stats.note_run(case_hash ^ 0xC4A5, &obs.outcome, obs.faults_fired);
+                stats.add_counters(&obs.counters);
+                stats.digest(index, crate::shellrun::obs_digest(&obs));
+                if let Some(v) = check_run_opt(&case, &exp, &obs, false) {
+                    stats.count("violating_runs", 1);
+                    let mut f = failure(&case, &cfg, &obs, &[], v);
+                    f.key = format!("crash:{}", f.key);
+                    first_failure = Some(f);
+                    break;
+                }
+            }
+        }
         first_failure
     }
 
     fn rerun(&self, case: &Value, cfg: &SimConfig, decisions: &[Decision]) -> Option<Failure> {
         let c: Case = serde_json::from_value(case.clone()).ok()?;
         let exp = expect(&c);
+        if cfg.crash_permille > 0 {
+            let obs = run_crash(&c, cfg, Decider::replay(decisions));
+            return check_run_opt(&c, &exp, &obs, false).map(|v| {
+                let mut f = failure(&c, cfg, &obs, decisions, v);
+                f.key = format!("crash:{}", f.key);
+                f
+            });
+        }
         if cfg.fail_spawn_at.is_some() {
             let obs = run_script(&spec_of(&c), cfg, Decider::replay(decisions));
             return check_run_opt(&c, &exp, &obs, false).map(|v| {
